@@ -575,7 +575,9 @@ class InstanceWriteProvider(BaseProvider):
                                                  target_namespace)
         assert self.is_association(creation_class)
 
-        ref_namespaces = set()
+        # Namespace names are case insensitive: the namespaces are collected
+        # by their lower-cased name, keeping the first spelling found.
+        ref_namespaces = {}
         for inst_prop in cim_object.properties.values():
             if inst_prop.type == 'reference':
                 refprop_namespace = inst_prop.value.namespace
@@ -586,10 +588,11 @@ class InstanceWriteProvider(BaseProvider):
                 # Add to list if namespace exists and not same as
                 # target_namespace
                 if refprop_namespace:
-                    if refprop_namespace != target_namespace:
-                        ref_namespaces.add(inst_prop.value.namespace)
+                    ns_key = refprop_namespace.lower()
+                    if ns_key != target_namespace.lower():
+                        ref_namespaces.setdefault(ns_key, refprop_namespace)
 
-        return list(ref_namespaces)
+        return list(ref_namespaces.values())
 
     def get_required_class(self, instance, namespace):
         """
